@@ -644,6 +644,16 @@ func (a *align) RefSites(name string, sites []int) (refsites []int, err error) {
 		}
 	}
 
+	// tmpi is now the index of the last residue of the reference sequence:
+	// sites after it do not exist on the reference
+	for _, s := range sites {
+		if s > tmpi {
+			refsites = nil
+			err = fmt.Errorf("site is outside the reference sequence : %d", s)
+			return
+		}
+	}
+
 	return
 }
 
